@@ -52,8 +52,9 @@ def rand_history(seed: int) -> list:
         holder.body.append(par)
     events = []
     nsteps = rng.randint(1, 5)
-    KINDS = ["wrap_offset", "wrap_offset", "wrap_pattern", "mark_occurrence", "mark_position", "mark_range", "mark_content", "strip_tags", "delete", "strip_self"]
-    MARKS = {"mark_occurrence", "mark_position", "mark_range", "mark_content", "delete"}
+    KINDS = ["wrap_offset", "wrap_offset", "wrap_pattern", "mark_occurrence", "mark_position", "mark_range", "mark_content", "strip_tags", "delete", "strip_self",
+             "mark_element"]
+    MARKS = {"mark_occurrence", "mark_position", "mark_range", "mark_content", "delete", "mark_element"}
     kinds = [rng.choice(KINDS) for _ in range(nsteps)]
     if rng.random() < 0.3:
         kinds = [rng.choice(sorted(MARKS)) for _ in range(nsteps)]       # mark-only histories: annotations may come early
@@ -91,6 +92,14 @@ def rand_history(seed: int) -> list:
             o = {"op": kind, "a": a, "b": rng.randint(a, total + 2), "alone": note_ok}
         elif kind == "strip_tags":
             o = {"op": kind, "tag": rng.choice(["span", "a"])}
+        elif kind == "mark_element":
+            idx = [0] if tokens else []
+            for i, t in enumerate(tokens):
+                if t["k"] == "o" and tokens[i + 1]["k"] != "c":
+                    idx.append(i + 1)
+            if not idx:
+                continue
+            o = {"op": kind, "i": rng.choice(idx), "alone": note_ok}
         elif kind == "strip_self":
             idx = [i + 1 for i, t in enumerate(tokens) if t["k"] == "o"]
             if not idx:
